@@ -336,7 +336,28 @@ def c20_queries(tier):
     return qs
 
 
+def c17_queries(tier):
+    N = 7 if tier == 'quick' else 9
+    v = lambda k, fl: ('src/is_6531_local.c', ['-Dis_6531_local=is_6531_local__v%d' % k] + fl)
+    V0, V1 = v(0, []), v(1, ['-DRFC6531_FOLLOW_RFC20'])
+    V2, V3 = v(2, ['-DRFC6531_FOLLOW_RFC5322']), v(3, ['-DRFC6531_FOLLOW_RFC5322', '-DRFC6531_FOLLOW_RFC20'])
+    dec = 'src/utf8_decode.c'
+    mk = lambda name, opt, units, covers, n=N: Query('C17-%s-N%d' % (name, n), 'a_options.c', repo=units, defs=D(VF_N=n, VF_OPT=opt),
+                                                     unwind=n + 5, covers=['end'] + covers, bounds={'max_len': n, 'ctx_bytes': 1},
+                                                     functions=['is_6531_local (variants)', 'is_ascii_domain (variants)'], timeout=3000)
+    return [mk('rfc20', 20, [V0, V1, dec], ['rfc20-rejects', 'rfc20-char-inside-quotes-kept']),
+            mk('rfc5322', 5322, [V2, dec, 'src/is_5322_local.c'], ['accept-quoted-space', 'reject']),
+            mk('rfc20+rfc5322', 2032, [V2, V3, dec], ['rfc20-rejects']),
+            mk('underscore', 95, ['src/is_ascii_domain.c', ('src/is_ascii_domain.c', ['-Dis_ascii_domain=is_ascii_domain__us', '-DLABELS_ALLOW_UNDERSCORE'])],
+               ['underscore-accepted'], n=N + 3)]
+
+
 PROPS = {
+    'C17': {
+        'queries': c17_queries, 'pre': pre.c17_pre,
+        'level': 'model_checking',
+        'outside': ['non-default builds are otherwise not verified against C02-C05', 'strings longer than max_len'],
+    },
     'C20': {
         'queries': c20_queries,
         'level': 'model_checking',
